@@ -89,7 +89,7 @@ theorem restore_transparent_started_intgroup (IP : IntGroupParams) (hp : 1 < IP.
       (∀ msg, (a'.finish msg).2 = (a.finish msg).2) ∧
       ∀ a'', RestoredFrom a a'' →
         a''.serialize = .ok s ∧ ∀ msg, (a''.finish msg).2 = (a.finish msg).2 :=
-  C08.restore_transparent_started (intGroupSpec IP hp hq hg hctor) (PropAux.validParams_of_mkParams _ hP) hpw hidA hidB hst hs
+  C08.restore_transparent_started (G := (intGroup IP)) (intGroupSpec IP hp hq hg hctor) (PropAux.validParams_of_mkParams _ hP) hpw hidA hidB hst hs
 
 /-- `restore_transparent_started` for the shipped 1024-bit integer group (generated constants); the parameter set is any one built by `mkParams` (valid by `arb_valid`). -/
 theorem restore_transparent_started_1024 {mSeed nSeed sSeed : Bytes} {P : Params G1024}
@@ -102,7 +102,7 @@ theorem restore_transparent_started_1024 {mSeed nSeed sSeed : Bytes} {P : Params
       (∀ msg, (a'.finish msg).2 = (a.finish msg).2) ∧
       ∀ a'', RestoredFrom a a'' →
         a''.serialize = .ok s ∧ ∀ msg, (a''.finish msg).2 = (a.finish msg).2 :=
-  C08.restore_transparent_started spec1024 (PropAux.validParams_of_mkParams _ hP) hpw hidA hidB hst hs
+  C08.restore_transparent_started (G := G1024) spec1024 (PropAux.validParams_of_mkParams _ hP) hpw hidA hidB hst hs
 
 /-- `restore_transparent_started` for the shipped 2048-bit integer group (generated constants); the parameter set is any one built by `mkParams` (valid by `arb_valid`). -/
 theorem restore_transparent_started_2048 {mSeed nSeed sSeed : Bytes} {P : Params G2048}
@@ -115,7 +115,7 @@ theorem restore_transparent_started_2048 {mSeed nSeed sSeed : Bytes} {P : Params
       (∀ msg, (a'.finish msg).2 = (a.finish msg).2) ∧
       ∀ a'', RestoredFrom a a'' →
         a''.serialize = .ok s ∧ ∀ msg, (a''.finish msg).2 = (a.finish msg).2 :=
-  C08.restore_transparent_started spec2048 (PropAux.validParams_of_mkParams _ hP) hpw hidA hidB hst hs
+  C08.restore_transparent_started (G := G2048) spec2048 (PropAux.validParams_of_mkParams _ hP) hpw hidA hidB hst hs
 
 /-- `restore_transparent_started` for the shipped 3072-bit integer group (generated constants); the parameter set is any one built by `mkParams` (valid by `arb_valid`). -/
 theorem restore_transparent_started_3072 {mSeed nSeed sSeed : Bytes} {P : Params G3072}
@@ -128,7 +128,7 @@ theorem restore_transparent_started_3072 {mSeed nSeed sSeed : Bytes} {P : Params
       (∀ msg, (a'.finish msg).2 = (a.finish msg).2) ∧
       ∀ a'', RestoredFrom a a'' →
         a''.serialize = .ok s ∧ ∀ msg, (a''.finish msg).2 = (a.finish msg).2 :=
-  C08.restore_transparent_started spec3072 (PropAux.validParams_of_mkParams _ hP) hpw hidA hidB hst hs
+  C08.restore_transparent_started (G := G3072) spec3072 (PropAux.validParams_of_mkParams _ hP) hpw hidA hidB hst hs
 
 /-- `restore_transparent_started` for Ed25519 with the constants generated from the current source; the parameter set is any one built by `mkParams` (valid by `arb_valid`). -/
 theorem restore_transparent_started_ed25519 {mSeed nSeed sSeed : Bytes} {P : Params GEd}
@@ -141,7 +141,7 @@ theorem restore_transparent_started_ed25519 {mSeed nSeed sSeed : Bytes} {P : Par
       (∀ msg, (a'.finish msg).2 = (a.finish msg).2) ∧
       ∀ a'', RestoredFrom a a'' →
         a''.serialize = .ok s ∧ ∀ msg, (a''.finish msg).2 = (a.finish msg).2 :=
-  C08.restore_transparent_started specGen (PropAux.validParams_of_mkParams _ hP) hpw hidA hidB hst hs
+  C08.restore_transparent_started (G := GEd) specGen (PropAux.validParams_of_mkParams _ hP) hpw hidA hidB hst hs
 
 /-- `restore_transparent_started` for Ed25519 with the literal RFC 8032 constants; the parameter set is any one built by `mkParams` (valid by `arb_valid`). -/
 theorem restore_transparent_started_ed25519_published {mSeed nSeed sSeed : Bytes} {P : Params GEdPub}
@@ -154,7 +154,7 @@ theorem restore_transparent_started_ed25519_published {mSeed nSeed sSeed : Bytes
       (∀ msg, (a'.finish msg).2 = (a.finish msg).2) ∧
       ∀ a'', RestoredFrom a a'' →
         a''.serialize = .ok s ∧ ∀ msg, (a''.finish msg).2 = (a.finish msg).2 :=
-  C08.restore_transparent_started specPublished (PropAux.validParams_of_mkParams _ hP) hpw hidA hidB hst hs
+  C08.restore_transparent_started (G := GEdPub) specPublished (PropAux.validParams_of_mkParams _ hP) hpw hidA hidB hst hs
 
 /-- **any number of round trips**: the restored record still agrees with the original on every
 session field -/
